@@ -223,7 +223,12 @@ pub fn monitors(cfg: &CfgReq, handles: &[(usize, f64, f64)], pure_score: bool, l
         handles.iter().all(|(a, lo, hi)| v0.get(*a).map_or(false, |v| lo <= hi && *v >= *lo && *v <= *hi))
     });
     for (k, st) in h.steps.iter().enumerate() {
-        let kt = cfg.kt_start * factor.powi(st.loop_idx as i32);
+        // the scheduled temperature: multiplied by the factor once between loops (so an infinite
+        // temperature stays infinite for every positive factor, and a zero one stays zero)
+        let mut kt = cfg.kt_start;
+        for _ in 0..st.loop_idx {
+            kt *= factor;
+        }
         // ---- C19: one parameter, bounded move
         if let Some(a) = st.param.filter(|a| in_range0 && handles.iter().filter(|h| h.0 == *a).count() <= 1) {
             let range: Option<f64> = {
